@@ -330,7 +330,7 @@ pub fn gen_steps(sw: &mut Rng, wl: &mut Rng, sheets: usize, n: usize) -> Vec<Ste
                 let s = match wl.usize(4) {
                     0 => Op::SetActive { sheet: wl.usize(sheets) },
                     1 => Op::SetState { sheet: 1 + wl.usize(sheets.max(2) - 1), state: ["hidden", "veryHidden", "visible"][wl.usize(3)].to_string() },
-                    2 => Op::RenameSheet { sheet: wl.usize(sheets), name: format!("R{} {}", i, world::gen_text(wl, if alpha == 1 { 3 } else { alpha }, 2).replace(['/', '\\', '?', '*', '[', ']', ':', '\n', '\t'], "_")) },
+                    2 => Op::RenameSheet { sheet: wl.usize(sheets), name: format!("R{} {}", i, world::gen_text(wl, if alpha == 1 { 3 } else { alpha }, 2).replace(['/', '\\', '?', '*', '[', ']', ':', '\n', '\t', '\r'], "_")) },
                     _ => Op::NewSheet { name: format!("N{}", i) },
                 };
                 steps.push(Step::O(s));
